@@ -374,6 +374,29 @@ func runC20(c *fw.Case) {
 	} else {
 		c.Obs("files_written_with_rollbacks", 1)
 		opts := []recordio.FileWriterOption{recordio.Path(path), recordio.CompressionType(comp)}
+		// three programs in four hand the writer a file HANDLE instead of a path: a fresh one, one that was used as a
+		// scratch file before (emptied with Truncate, so its offset is not 0), or one opened for appending
+		if how := r.Intn(4); how != 0 {
+			var f *os.File
+			var ferr error
+			switch how {
+			case 1:
+				f, ferr = os.Create(path)
+			case 2:
+				if f, ferr = os.Create(path); ferr == nil {
+					_, _ = f.Write(gen.Bytes(r, 1+r.Intn(300)))
+					ferr = f.Truncate(0)
+				}
+			default:
+				f, ferr = os.OpenFile(path, os.O_WRONLY|os.O_CREATE|os.O_APPEND, 0644)
+			}
+			if ferr != nil {
+				c.Violate("harness/write", "%v", ferr)
+				return
+			}
+			opts[0] = recordio.File(f)
+			c.Obs("writers_given_a_file_handle_"+[]string{"", "fresh", "recycled_after_truncate", "opened_for_appending"}[how], 1)
+		}
 		if wb := gen.Pick(r, 64, 4096, 0); wb != 0 {
 			opts = append(opts, recordio.BufferSizeBytes(wb))
 		}
